@@ -235,3 +235,49 @@ contract(
     ],
     returns=LIMITS, local_types={"mem_limits": LIMITS}, allocates=True,
 )
+
+
+# ===== MemoryRangeSet.intersects / MemoryAccessSet.conflicts: conflict detection per region and per access direction ==================
+from contracts.c_range_set import rs_overlap, rs_wf  # noqa: E402
+
+
+def mrs_wf(m):
+    return forall_int(lambda r: implies(m.regions.get(r) is not None, rs_wf(m.regions.get(r))))
+
+
+def mrs_overlap(a, b):
+    """some region is accessed by both and the accesses share a byte there"""
+    return not forall_int(lambda r: not (a.regions.get(r) is not None and b.regions.get(r) is not None and rs_overlap(a.regions.get(r), b.regions.get(r))))
+
+
+contract(
+    "ethosu.vela.range_set:MemoryRangeSet.intersects", props=["C04"],
+    types=dict(self=MRS, other=MRS),
+    requires=["mrs_wf(self)", "mrs_wf(other)"],
+    loops={0: dict(invariants=[
+        # no region examined so far (a region present in both sets) has overlapping ranges
+        "all(not rs_overlap(self.regions.get((self.regions.keys() & other.regions.keys())[j]), other.regions.get((self.regions.keys() & other.regions.keys())[j]))"
+        " for j in range(_it0))",
+    ])},
+    hints={"after:if self.regions[mem_area].intersects(": ["not rs_overlap(self.regions.get(mem_area), other.regions.get(mem_area))"]},
+    # exact: True iff the two sets share a byte in some region (a missed overlap would hide a conflict, a spurious one only costs a wait)
+    ensures=["result == mrs_overlap(self, other)"],
+    returns=PyBool,
+)
+
+
+def mas_wf(a):
+    return len(a.accesses) == 2 and mrs_wf(a.accesses[0]) and mrs_wf(a.accesses[1])
+
+
+contract(
+    "ethosu.vela.range_set:MemoryAccessSet.conflicts", props=["C04"],
+    types=dict(self=MAS, other=MAS),
+    requires=["mas_wf(self)", "mas_wf(other)"],
+    # exact: a conflict is a byte written by one and read or written by the other (read/read is not a conflict); index 0 = Read, 1 = Write
+    ensures=["result == (mrs_overlap(self.accesses[1], other.accesses[0]) or mrs_overlap(self.accesses[0], other.accesses[1])"
+             " or mrs_overlap(self.accesses[1], other.accesses[1]))"],
+    returns=PyBool,
+    assumptions=["functools.lru_cache on conflicts: sound only if access sets are not mutated after their first use (all add() calls of "
+                 "generate_command_stream precede the first conflicts(); not under contract)"],
+)
